@@ -109,11 +109,15 @@ def parallel(fn, progs, recs, procs=14, chunk=4000):
     spans = [(lo, min(len(recs), lo + chunk)) for lo in range(0, len(recs), chunk)]
     if len(spans) <= 1:
         return [fn((progs, recs))] if recs else []
+    import gc
     _SHARED.update(fn=fn, progs=progs, recs=recs)
+    gc.collect()
+    gc.freeze()      # a forked worker's collector must not write into (and thereby copy) the parent's objects
     try:
         with multiprocessing.get_context('fork').Pool(min(procs, len(spans))) as pool:
             return pool.map(_shared_call, spans)
     finally:
+        gc.unfreeze()
         _SHARED.clear()
 
 
